@@ -1,5 +1,5 @@
 import Driver.Util
-import CtyModel.Msgpack
+import CtyModel.MsgpackSpec
 open CtyModel
 open CtyModel.Msgpack
 
@@ -16,7 +16,9 @@ Items travel as
 * `mp.unmarshal <item> <ty>` → `ok <value>` …, sets printed without bucket ids, members sorted
 * `mp.implied <item>` → `ok <ty>` …
 * `mp.parse x<hex>` → `ok <num>` … (`cty.ParseNumberVal`)
-* `mp.fits <value> <ty> <oracle>` → `0|1`: the hypothesis `C16.Fits` of the round-trip theorems -/
+* `mp.fits <value> <ty> <oracle>` → `0|1`: the hypotheses of `C16.roundtrip_covers` (`Fits`, conformance)
+* `mp.fitsimp <value> <ty> <oracle> <ok 0|1>` → `1` if the hypotheses hold, else the last argument echoed:
+  equal to "did the real round trip satisfy the property" exactly when hypotheses ⇒ real outcome -/
 
 namespace HMsgpack
 
@@ -145,6 +147,16 @@ def handleMsgpack : Handler := fun op args =>
   | "mp.implied", [it] => do
     let it ← itemOfSexp it
     pure (resTag (fun t => toString t.toSexp) (impliedType (extOf []) it))
+  | "mp.fits", [v, t, o] => do
+    let v ← Value.ofSexp v
+    let t ← Ty.ofSexp t
+    let tbl ← decOracle o
+    pure (toString (Sexp.encBool (Fits (extOf tbl) t v && Ty.conformErrs t v.ty == 0)))
+  | "mp.fitsimp", [v, t, o, .atom ok] => do
+    let v ← Value.ofSexp v
+    let t ← Ty.ofSexp t
+    let tbl ← decOracle o
+    pure (if Fits (extOf tbl) t v && Ty.conformErrs t v.ty == 0 then "1" else ok)
   | "mp.parse", [s] => do
     let s ← Sexp.decStr s
     pure (resTag (fun x => toString x.toSexp) (parseNumber s))
